@@ -487,7 +487,21 @@ func (fr *Frame) enterLoop(li *loopInfo, st *State) {
 	st.nextID = fc.fresh("nid", SInt, nil)
 	fc.assume(st, mk(fmt.Sprintf("(>= %s %s)", st.nextID.S, oldNext.S), SBool, nil))
 	if all {
-		comps = fc.sortedComps()
+		// everything, except that ghost protocol state is changed only by contracts that say so
+		explicit := map[string]bool{}
+		for _, c := range comps {
+			explicit[strings.TrimPrefix(c, "~")] = true
+		}
+		comps = nil
+		for _, c := range fc.sortedComps() {
+			if strings.HasPrefix(c, "GH_") && !explicit[c] {
+				continue
+			}
+			if fc.w.isFinalComp(c) && !explicit[c] {
+				continue
+			}
+			comps = append(comps, c)
+		}
 	}
 	fr.havocComps(st, comps, preLoop)
 	for _, a := range locals {
@@ -732,6 +746,9 @@ func (fr *Frame) val(st *State, v ssa.Value) Term {
 		name := fmt.Sprintf("fv_%s!%d", identOf(x.Name()), fc.n)
 		fc.emit(fmt.Sprintf("(declare-const %s %s)", name, fc.sortOf(x.Type())))
 		t := mk(name, fc.sortOf(x.Type()), x.Type())
+		if et := elemTypeOfPtr(x.Type()); et != nil && !isAggregate(et) {
+			t.Sh = &PShape{Kind: 'o'}
+		}
 		fr.freeVars[x] = t
 		return t
 	case *ssa.Builtin:
